@@ -64,6 +64,20 @@ def small_scope_trees(ctx):
             yield ["and", ["m", g], ["m", x]]
             yield ["or", ["m", g], ["m", x]]
             yield ["or", ["m", x], ["m", g]]
+    if getattr(ctx, "small_scope_revin", False):
+        # literal-on-the-left in / not in atoms against groups and atoms of the same variable (structure only: their
+        # meaning is the subject of known finding F4, so only the check that looks at shapes asks for them)
+        rev = [f'"{lit}" {op} os_name' for op in ("in", "not in") for lit in ("a", "b", "ab", "")]
+        for g in groups:
+            for x in rev:
+                yield ["and", ["m", g], ["m", x]]
+                yield ["and", ["m", x], ["m", g]]
+                yield ["or", ["m", g], ["m", x]]
+                yield ["or", ["m", x], ["m", g]]
+        for x, y in itertools.product(rev, atoms + rev):
+            yield ["and", ["m", x], ["m", y]]
+            yield ["or", ["m", x], ["m", y]]
+            yield ["or", ["m", y], ["m", x]]
     pa = []
     for var, vals in (("python_version", ["3.7", "3.8", "3.10", "3"]), ("python_full_version", ["3.7.9", "3.8.0", "3.8"])):
         for v in vals:
@@ -339,7 +353,7 @@ def resolution_trees():
             yield ["exclude", ["exclude", base, ev], "sys_platform"]
 
 
-def run_trees(ctx, run_tree, *, n_random, max_atoms, unary_p=0.3, small_frac=1.0, cfg=None, seconds=None):
+def run_trees(ctx, run_tree, *, n_random, max_atoms, unary_p=0.3, small_frac=1.0, cfg=None, seconds=None, strata=True):
     """run_tree(tree) evaluates one tree (the check supplies monitors/oracles)."""
     rnd = ctx.rnd
     ctx.stratum = "main"
@@ -349,7 +363,7 @@ def run_trees(ctx, run_tree, *, n_random, max_atoms, unary_p=0.3, small_frac=1.0
     off = ctx.shard if ctx.tier == "thorough" else ctx.shard + (ctx.seed % 8) * ctx.nshards
     cnt = 0
     t_small = ctx.elapsed()
-    for i, t in enumerate(small_scope_trees(ctx)):
+    for i, t in enumerate(small_scope_trees(ctx) if strata else ()):
         if i % step != off % step:
             continue
         if ctx.elapsed() - t_small > (40 if ctx.tier == "quick" else 300):
@@ -361,7 +375,8 @@ def run_trees(ctx, run_tree, *, n_random, max_atoms, unary_p=0.3, small_frac=1.0
         cnt += 1
     ctx.extra["small_scope_cases"] = cnt
     ctx.extra["small_scope_seconds"] = round(ctx.elapsed() - t_small, 1)
-    size_strata(ctx, run_tree)
+    if strata:
+        size_strata(ctx, run_tree)
     ctx.stratum = "main"
     cfg = cfg or MW.Cfg()
     closure = []
